@@ -107,6 +107,15 @@ class Mesh:
             # blocks and lists are in place already (clear() undoes that)
             return
 
+        try:
+            self._assemble(skip_edges)
+        except Exception:
+            # a failed assembly leaves nothing behind: the next attempt (after the user
+            # repaired the offending entity) starts from scratch, not from the blocks finished so far
+            self.clear()
+            raise
+
+    def _assemble(self, skip_edges: bool) -> None:
         # first, collect data about patches and merged stuff
         for entity in self.depot:
             if isinstance(entity, Operation):
